@@ -17,6 +17,7 @@ import (
 	"github.com/datastax/cql-proxy/proxycore"
 	"github.com/datastax/go-cassandra-native-protocol/message"
 	"github.com/datastax/go-cassandra-native-protocol/primitive"
+	"go.uber.org/zap"
 
 	"verif/harness/evid"
 	"verif/harness/fakecass"
@@ -122,6 +123,9 @@ func startEnv(o envOpts) (*env, error) {
 		DC:                o.DC,
 		Tokens:            o.Tokens,
 		Peers:             o.Peers,
+	}
+	if os.Getenv("VERIF_PROXYLOG") != "" {
+		cfg.Logger, _ = zap.NewDevelopment()
 	}
 	if len(o.Unsupported) > 0 {
 		cfg.UnsupportedWriteConsistencies = proxy.VerifConsistencies(o.Unsupported...)
